@@ -123,19 +123,19 @@ end
 
 /-! ## name-valid trees are valid, `]`-free, reserved-free DOM nodes -/
 
-def tmplAttrs (t : Bool) : List (Str × Str) := if t then [("jr:template".toList, [])] else []
+def ntTmplAttrs (t : Bool) : List (Str × Str) := if t then [("jr:template".toList, [])] else []
 
-theorem ntNode_eq (n : Str) (t : Bool) (ks : List NT) : ntNode (.node n t ks) = .elem n (tmplAttrs t) (ntNodes ks) := by
-  simp only [ntNode, tmplAttrs]
+theorem ntNode_eq (n : Str) (t : Bool) (ks : List NT) : ntNode (.node n t ks) = .elem n (ntTmplAttrs t) (ntNodes ks) := by
+  simp only [ntNode, ntTmplAttrs]
 
-theorem tmplAttrs_scope (t : Bool) : (tmplAttrs t).filterMap pyDeclared = [] := by
+theorem ntTmplAttrs_scope (t : Bool) : (ntTmplAttrs t).filterMap pyDeclared = [] := by
   cases t <;> decide
 
-theorem tmplAttrs_valid (R : List Str) (t : Bool) (hjr : R.contains "jr".toList = true) :
-    (tmplAttrs t).all (attrValid R) = true := by
+theorem ntTmplAttrs_valid (R : List Str) (t : Bool) (hjr : R.contains "jr".toList = true) :
+    (ntTmplAttrs t).all (attrValid R) = true := by
   cases t
   · rfl
-  · simp only [tmplAttrs, if_true, List.all_cons, List.all_nil, Bool.and_true]
+  · simp only [ntTmplAttrs, if_true, List.all_cons, List.all_nil, Bool.and_true]
     exact attrValid_intro R _ _ (pyDeclOk_of_not_decl _ _ (by decide))
       (nameValid_prefixed R _ "jr".toList (by decide) (by decide) hjr) rfl
 
@@ -145,7 +145,7 @@ theorem valid_ntNode (R : List Str) (hjr : R.contains "jr".toList = true) :
   | .node n t ks, h => by
     rw [ntAll_node, Bool.and_eq_true, Bool.and_eq_true] at h
     rw [ntNode_eq]
-    exact validDoc_elem0 (tmplAttrs_scope t) (tmplAttrs_valid R t hjr) h.1.1 (valid_ntNodes R hjr ks h.2) h.1.2
+    exact validDoc_elem0 (ntTmplAttrs_scope t) (ntTmplAttrs_valid R t hjr) h.1.1 (valid_ntNodes R hjr ks h.2) h.1.2
 theorem valid_ntNodes (R : List Str) (hjr : R.contains "jr".toList = true) :
     ∀ (ts : List NT), ntAllL (fun x => nameValid R x && elemPrefixOk x) ts = true → validKids R (ntNodes ts) = true
   | [], _ => by simp [ntNodes, validKids]
